@@ -10,42 +10,87 @@ and therefore every length residue mod 4), all ten encodings; every byte string 
 namespace A2l.Enc
 
 /-- UTF-32 and UTF-16 code-unit round trips, both byte orders, all of Unicode -/
-theorem decode32_encode32 (be : Bool) (s : List Char) : decode32 be (encode32 be s) = some s := sorry
-theorem decode16_encode16 (be : Bool) (s : List Char) : fromUtf16 (units16 be (encode16 be s)) = some s := sorry
-theorem utf8_encode8 (s : List Char) : utf8? (encode8 s) = some s := sorry
+theorem decode32_encode32 (be : Bool) (s : List Char) : decode32 be (encode32 be s) = some s :=
+  decode32_roundtrip be s
+theorem decode16_encode16 (be : Bool) (s : List Char) : fromUtf16 (units16 be (encode16 be s)) = some s :=
+  decode16_roundtrip be s
+theorem utf8_encode8 (s : List Char) : utf8? (encode8 s) = some s :=
+  utf8_roundtrip s
 
 /-- **Encoding independence.** For every A2L text and each of the ten encodings, what the loader hands to the
     tokenizer is the text itself. -/
-theorem load_encode (e : Encoding) (s : List Char) (hs : A2lText s) : loadText (encode e s) = s := sorry
+theorem load_encode (e : Encoding) (s : List Char) (hs : A2lText s) : loadText (encode e s) = s := by
+  unfold loadText
+  cases e <;> simp only [encode]
+  · rw [decodeRaw_utf8 s hs, stripBom_a2l s hs]
+  · rw [decodeRaw_utf8Bom s hs, stripBom_bom]
+  · rw [decodeRaw_utf16le s hs, stripBom_a2l s hs]
+  · rw [decodeRaw_utf16be s hs, stripBom_a2l s hs]
+  · rw [decodeRaw_utf16leBom s hs, stripBom_bom]
+  · rw [decodeRaw_utf16beBom s hs, stripBom_bom]
+  · rw [decodeRaw_utf32le s hs, stripBom_a2l s hs]
+  · rw [decodeRaw_utf32be s hs, stripBom_a2l s hs]
+  · rw [decodeRaw_utf32leBom s hs, stripBom_bom]
+  · rw [decodeRaw_utf32beBom s hs, stripBom_bom]
 
 /-- the detection cascade picks the right decoder: stated per family, BOM kept by `decodeRaw`, stripped by `load` -/
 theorem decodeRaw_encode_nobom (s : List Char) (hs : A2lText s) :
     decodeRaw (encode .utf8 s) = s ∧ decodeRaw (encode .utf16le s) = s ∧ decodeRaw (encode .utf16be s) = s ∧
-    decodeRaw (encode .utf32le s) = s ∧ decodeRaw (encode .utf32be s) = s := sorry
+    decodeRaw (encode .utf32le s) = s ∧ decodeRaw (encode .utf32be s) = s :=
+  ⟨decodeRaw_utf8 s hs, decodeRaw_utf16le s hs, decodeRaw_utf16be s hs, decodeRaw_utf32le s hs,
+    decodeRaw_utf32be s hs⟩
 
 theorem decodeRaw_encode_bom (s : List Char) (hs : A2lText s) :
     decodeRaw (encode .utf8Bom s) = bom :: s ∧ decodeRaw (encode .utf16leBom s) = bom :: s ∧
     decodeRaw (encode .utf16beBom s) = bom :: s ∧ decodeRaw (encode .utf32leBom s) = bom :: s ∧
-    decodeRaw (encode .utf32beBom s) = bom :: s := sorry
+    decodeRaw (encode .utf32beBom s) = bom :: s :=
+  ⟨decodeRaw_utf8Bom s hs, decodeRaw_utf16leBom s hs, decodeRaw_utf16beBom s hs, decodeRaw_utf32leBom s hs,
+    decodeRaw_utf32beBom s hs⟩
 
 /-- **Latin-1 fallback**: bytes that none of the Unicode decoders accepts are read as Latin-1, one character per byte. -/
 theorem latin1_fallback (b : Bytes) (h32 : try32 b = none) (h16 : try16 b = none) (h8 : utf8? b = none) :
-    decodeRaw b = latin1 b ∧ (decodeRaw b).length = b.length := sorry
+    decodeRaw b = latin1 b ∧ (decodeRaw b).length = b.length := by
+  have h : decodeRaw b = latin1 b := by simp only [decodeRaw, h32, h16, h8]
+  exact ⟨h, by rw [h]; simp only [latin1, List.length_map]⟩
 
 /-- in particular: odd-length input that is not valid UTF-8 is always Latin-1 -/
 theorem latin1_of_odd_invalid (b : Bytes) (hodd : b.length % 2 = 1) (h8 : utf8? b = none) :
-    decodeRaw b = latin1 b := sorry
+    decodeRaw b = latin1 b := by
+  have h32 : try32 b = none := by
+    unfold try32; rw [if_neg (by omega)]
+  have h16 : try16 b = none := by
+    unfold try16; rw [if_neg (by omega)]
+  exact (latin1_fallback b h32 h16 h8).1
 
 /-- **Totality** is by construction (every function of the model is total and has no `panic` outcome); what can be
     stated is that every byte string decodes to one of the four interpretations. -/
 theorem decodeRaw_cases (b : Bytes) :
     (∃ s, try32 b = some s ∧ decodeRaw b = s) ∨ (∃ s, try16 b = some s ∧ decodeRaw b = s) ∨
-    (∃ s, utf8? b = some s ∧ decodeRaw b = s) ∨ decodeRaw b = latin1 b := sorry
+    (∃ s, utf8? b = some s ∧ decodeRaw b = s) ∨ decodeRaw b = latin1 b := by
+  cases h32 : try32 b with
+  | some s => exact Or.inl ⟨s, rfl, decodeRaw_of_try32 b s h32⟩
+  | none =>
+    cases h16 : try16 b with
+    | some s => exact Or.inr (Or.inl ⟨s, rfl, decodeRaw_of_try16 b s h32 h16⟩)
+    | none =>
+      cases h8 : utf8? b with
+      | some s => exact Or.inr (Or.inr (Or.inl ⟨s, rfl, decodeRaw_of_utf8 b s h32 h16 h8⟩))
+      | none => exact Or.inr (Or.inr (Or.inr (latin1_fallback b h32 h16 h8).1))
 
 /-! ## non-vacuity: a text with non-ASCII and non-BMP characters satisfies the hypotheses -/
-example : A2lText ['A', 'é', Char.ofNat 0x1F600, '"'] := sorry
+example : A2lText ['A', 'é', Char.ofNat 0x1F600, '"'] where
+  head := ⟨'A', _, rfl, by decide, by decide⟩
+  nonul := by
+    intro c hc
+    simp only [List.mem_cons, List.not_mem_nil, or_false] at hc
+    rcases hc with rfl | rfl | rfl | rfl <;> decide
 
 /-- the hypothesis "no NUL" cannot be dropped: UTF-8 `"A\0"` is read as UTF-16 -/
-theorem nul_matters : decodeRaw (encode .utf8 ['A', Char.ofNat 0]) ≠ ['A', Char.ofNat 0] := sorry
+theorem nul_matters : decodeRaw (encode .utf8 ['A', Char.ofNat 0]) ≠ ['A', Char.ofNat 0] := by
+  have he : encode .utf8 ['A', Char.ofNat 0] = [0x41, 0x00] := by decide
+  have hd : decodeRaw [0x41, 0x00] = ['A'] := by decide
+  rw [he, hd]
+  intro h
+  exact absurd (congrArg List.length h) (by decide)
 
 end A2l.Enc
